@@ -257,6 +257,38 @@ func vfC18Run(c vfC18Case, ctx *vfCtx) *vfViolation {
 			return vfFail("%s: preprocessing changed the values of a vector", kind)
 		}
 
+		// the same buffer preprocessed again after an in-place edit: the result follows the CONTENT (sign
+		// flips keep the norm bit-identical), and writing into an earlier result does not disturb a later one
+		if kind == Cosine {
+			buf := vfCloneF32(c.A)
+			p1, err := d.Preprocess(buf)
+			if err != nil {
+				return vfFail("cosine: Preprocess: %v", err)
+			}
+			keep := vfCloneF32(p1)
+			for i := range buf {
+				buf[i] = -buf[i]
+			}
+			p2, err := d.Preprocess(buf)
+			if err != nil {
+				return vfFail("cosine: Preprocess of the negated buffer: %v", err)
+			}
+			for i := range p2 {
+				if p2[i] != -keep[i] {
+					return vfFail("cosine: Preprocess of a buffer that was negated in place returns %v at %d, want %v (the result of the earlier call on the same buffer was %v)", p2[i], i, -keep[i], keep[i])
+				}
+			}
+			p2[0] += 1
+			p3, err := d.Preprocess(buf)
+			if err != nil || len(p3) != len(keep) {
+				return vfFail("cosine: Preprocess: %v", err)
+			}
+			for i := range p3 {
+				if p3[i] != -keep[i] {
+					return vfFail("cosine: after the caller wrote into an earlier result, Preprocess of the same buffer returns %v at %d, want %v", p3[i], i, -keep[i])
+				}
+			}
+		}
 		dab, dba := d.Calculate(pa, pb), d.Calculate(pb, pa)
 		dac, dbc := d.Calculate(pa, pc), d.Calculate(pb, pc)
 		daa := d.Calculate(pa, pa)
